@@ -326,15 +326,17 @@ class Merger:
                     "Looking for comparison value, {}, in:".format(cmp_val),
                     prefix="Merger::_merge_simple_lists:  ", data=tagless_lhs)
 
-                if cmp_val in tagless_lhs:
+                if any(Merger._same_value(e, cmp_val) for e in tagless_lhs):
                     lhs = CommentedSeq([ele
-                           if (e == cmp_val
+                           if (Merger._same_value(e, cmp_val)
                                or (isinstance(e, TaggedScalar)
-                                   and e.value == cmp_val)
+                                   and Merger._same_value(e.value, cmp_val))
                            ) else e
                            for e in lhs])
                 else:
                     lhs.append(ele)
+                    # (lest a repeat of this element be appended, too)
+                    tagless_lhs.append(cmp_val)
                 continue
             lhs.append(ele)
         return lhs
@@ -404,7 +406,7 @@ class Merger:
                         , path_next
                     )
                 if id_key in ele:
-                    id_val = Nodes.tagless_value(ele[id_key])
+                    id_val = Merger._identity_value(ele[id_key])
                 else:
                     raise MergeException(
                         "Mandatory identity key, {}, not present in Hash with"
@@ -418,7 +420,8 @@ class Merger:
                     lhs_hash for lhs_hash in lhs
                     if isinstance(lhs_hash, CommentedMap)
                     and id_key in lhs_hash
-                    and Nodes.tagless_value(lhs_hash[id_key]) == id_val
+                    and Merger._same_value(
+                        Merger._identity_value(lhs_hash[id_key]), id_val)
                 ):
                     self._merge_dicts(lhs_hash, ele, path_next)
                     merged_hash = True
@@ -557,6 +560,20 @@ class Merger:
         if isinstance(node, float):
             return "float"
         return "other"
+
+    @staticmethod
+    def _same_value(lhs: Any, rhs: Any) -> bool:
+        """Indicate whether two values are equal also as YAML values."""
+        return bool(
+            lhs == rhs
+            and Merger._scalar_kind(lhs) == Merger._scalar_kind(rhs))
+
+    @staticmethod
+    def _identity_value(node: Any) -> Any:
+        """Get the value which identifies a record, without its YAML Tag."""
+        if isinstance(node, TaggedScalar):
+            return Nodes.tagless_value(node)
+        return node
 
     def _resolve_anchor_conflicts(self, rhs: Any) -> None:
         """
